@@ -181,6 +181,15 @@ def check_selector(case, ctx: Ctx):
                 alt = call(f"{table}()[{key!r}]", lambda: sel[key])[cols]
                 check(alt.equals(res) or (len(alt) == 0 and len(res) == 0),
                       f"{table}: column selection changes the rows: sel[cols][r] != sel[r][cols]")
+        if table == "pixels-join" and cols is None:
+            # the same Cooler object serves differently configured joined selectors one after the other
+            raw = call("pixels(join=True, convert_enum=False)[r]", lambda: clr.pixels(join=True, convert_enum=False)[key])
+            codes = {nm: t for t, nm in enumerate(case["bt"]["names"])}
+            check([int(x) for x in raw["chrom1"]] == [codes[x] for x in full["chrom1"][lo:hi]],
+                  lambda: f"pixels(join=True, convert_enum=False) after a converting selector on the same object: chrom1 = {raw['chrom1'].tolist()[:5]}")
+            again = call("pixels(join=True)[r] again", lambda: clr.pixels(join=True)[key])
+            check([str(x) for x in again["chrom1"]] == full["chrom1"][lo:hi] and [str(x) for x in again["chrom2"]] == full["chrom2"][lo:hi],
+                  lambda: f"pixels(join=True) after a non-converting selector on the same object: chrom1 = {again['chrom1'].tolist()[:5]}")
         if table == "bins" and (cols is None or cols == "chrom" or (isinstance(cols, list) and "chrom" in cols)):
             ch = res if isinstance(cols, str) else res["chrom"]
             check(isinstance(ch.dtype, pd.CategoricalDtype) and list(ch.cat.categories) == list(case["bt"]["names"]),
